@@ -527,7 +527,10 @@ def op_evolve(w, s):
         return "done"
     except (Violation, HarnessError):
         raise
-    except FloatingPointError as ex:
+    except (FloatingPointError, ValueError, np.linalg.LinAlgError) as ex:
+        if not isinstance(ex, FloatingPointError) and not (illcond and ("infs or NaNs" in str(ex) or isinstance(ex, np.linalg.LinAlgError))):
+            raise V({"C09" if not imag else "C10"}, "evolve.raised", f"evolve {method} dt={dt} cfg={c}: {type(ex).__name__}: {ex}",
+                    sig=f"evolve.raised:{method}:{'imag' if imag else 'real'}:{type(ex).__name__}")
         if illcond:
             # overflow in the regularised inverse / exponential of an ill-conditioned mean-field problem: loud refusal
             w.stats.probes["mean_field_illconditioned_overflow"] += 1
@@ -589,9 +592,17 @@ def op_evolve(w, s):
         if diff:
             raise V({"C13", pid_main}, "C13.input_config_changed", f"evolve {method} changed the settings of its INPUT object: " + ", ".join(f"{k}: {cfg_before[k]} -> {cfg_after[k]}" for k in diff),
                     sig=f"C13.input_config_changed:{method}:{','.join(diff)}")
-    w.put(s["out"], e.kind, res, got, e.mid, meta)
     en = max(float(np.linalg.norm(expected.ravel())), 1e-300)
-    err = float(np.linalg.norm((got - expected).ravel())) / en
+    with np.errstate(all="ignore"):
+        err = float(np.linalg.norm((got - expected).ravel())) / en
+    if illcond and not (np.isfinite(err) and err < 1e100):
+        # singular mean-field problem (see above): the regularised inverse blew up; such inputs are outside the schemes' claims and the
+        # result is not kept in the world (its magnitude would overflow every later comparison)
+        w.stats.probes["mean_field_illconditioned_blowup_dropped"] += 1
+        return "done"
+    w.put(s["out"], e.kind, res, got, e.mid, meta)
+    if not np.isfinite(err):
+        err = float("inf")
     # ---- bond limit (any bond dimension)
     limit = None
     cc = res.compress_config
